@@ -296,6 +296,25 @@ def run_case(case) -> CaseResult:
                 labels.add(kind)
                 h.call(chan.pause_reading if kind == 'pause'
                        else chan.resume_reading)
+            elif kind == 'resume-arriving':
+                # the application resumes reading in the very loop
+                # iteration in which the socket's read callback with more
+                # data for the channel runs: what the channel had buffered
+                # while paused comes first
+                _, ci, side = op
+                ci %= nchan
+                chan = cchans[ci] if side == 'c' else ssessions[ci].chan
+                sender = 's' if side == 'c' else 'c'
+
+                # pylint: disable=protected-access
+                if chan._recv_buf and h.wire.q[sender]:
+                    labels.add('resume-while-data-arrives')   # label only
+
+                def both(chan=chan, sender=sender):
+                    chan.resume_reading()
+                    h.deliver(sender, None)
+
+                h.call(both)
             elif kind == 'pump':
                 for _ in range(op[1]):
                     for side in ('c', 's'):
@@ -462,6 +481,18 @@ def strategy(tier: str):
                       pick(['c', 's'])).map(list),
             st.tuples(st.just('pump'), st.integers(1, 8)).map(list))
         ops = draw(st.lists(op, min_size=1, max_size=max_ops))
+
+        if draw(st.integers(0, 5)) == 0:
+            # a reader paused with data buffered in the channel, more on
+            # the wire, resuming as it arrives
+            c = draw(ci)
+            side = draw(pick(['c', 's']))
+            stream = 'i' if side == 's' else draw(pick(['o', 'e']))
+            n1, n2 = draw(st.integers(1, 40)), draw(st.integers(1, 40))
+            ops = [['pause', c, side], ['w', c, stream, n1], ['pump', 2],
+                   ['w', c, stream, n2], ['resume-arriving', c, side]] + \
+                ops[:draw(st.integers(0, 6))]
+
         return {'srv': srv, 'chans': chans, 'chunks': chunks, 'ops': ops,
                 'finish': draw(st.lists(pick([None, None, 's-exit']),
                                         min_size=3, max_size=3)),
@@ -625,7 +656,8 @@ FAMILIES = [
            required={'all': ['write>window', 'write>pkt', 'multibyte-split',
                              'multi-chan', 'eof', 'pause', 'chunk-1byte',
                              'rekey', 'exit-right-after-eof',
-                             'instant-exit:empty', 'instant-exit:data']},
+                             'instant-exit:empty', 'instant-exit:data',
+                             'resume-while-data-arrives']},
            timeout_is_violation=True, case_timeout=120),
     Family('streams', run_streams, strategy=streams_strategy,
            budget={'quick': 600, 'thorough': 8000},
